@@ -51,6 +51,9 @@ CHECKS = {
     'C08': dict(category='exploration', technique='exhaustive sweeps of whole floating-point carriers (all float16 and bfloat16 values; thorough: all 2^32 float32 values and all float16 pairs) through the unary and pair laws, all triples over boundary alphabets for float32/float64, all Bool values, against closed forms and exact arithmetic',
                 text='Every value of the 16-bit carriers (thorough: every float32 bit pattern) is pushed through star, the identity / annihilation / infinity laws, sub(x,x)+x, add_/sum and commutativity in the Real, Log and Viterbi semirings and compared with float64 closed forms; associativity, distributivity and sub(x,y)+y=x are checked on all triples/pairs of a 15-value boundary alphabet per dtype against exact rational or 60-digit arithmetic; Bool is checked completely; from_int on 0..8; add/mul/sub on every same-typed pair of patterned operands must equal the dense result.',
                 note='float64 cannot be swept. Triples whose exact intermediates overflow/underflow the dtype are skipped and counted. Log/Viterbi tolerances are relative to the largest magnitude involved (values are logarithms).', design='3/C08'),
+    'C09': dict(category='exploration', technique='exhaustive enumeration of small dense systems over a 6-value alphabet, of all square same-typed pattern pairs, and of all block-presence patterns of 2-3 key MultiTensors x shapes x transposes x deviations x 4 semirings against exact least-solution oracles',
+                text='Semiring.solve is run on every 1x1 and 2x2 system over {0,1/4,1/2,1,2,inf} (all right-hand sides, vector and matrix) in all four semirings and compared with exact least solutions (rational SCC/M-matrix analysis, max-plus Bellman-Ford, Boolean closure); PatternedTensor.solve on every square same-typed pattern pair at sub-, exactly- and super-critical scalings must agree with the dense semiring solver; multi_solve and multi_mv are run on every presence pattern of the blocks of A and b for three shape families, both transposes and key orders, with critical / supercritical / infinite deviations, against the oracle on the assembled dense system; arguments are compared before and after.',
+                note='Known finding K04 (numerically singular I-A accepted from LU for critical blocks larger than 2x2). Bounds in evidence.', design='3/C09'),
 }
 
 ALL = ['C%02d' % i for i in range(1, 21)]
